@@ -11,7 +11,6 @@ package fzf
 // The shell's working directory contains bait files so that an unquoted * or ? changes the words.
 
 import (
-	"bytes"
 	"fmt"
 	"math"
 	"os"
@@ -428,15 +427,25 @@ func (s *c12shell) run(script string) ([]byte, error) {
 	s.runs++
 	cmd := s.x.ExecCommand(script, false)
 	cmd.Dir = s.dir
-	var out bytes.Buffer
-	cmd.Stdout = &out
+	// stdout goes to a file, not a pipe: the shell issues one small write per printf
+	outPath := filepath.Join(s.dir, "..", "c12-shell-stdout")
+	f, err := os.OpenFile(outPath, os.O_CREATE|os.O_TRUNC|os.O_RDWR, 0o600)
+	if err != nil {
+		return nil, err
+	}
+	defer f.Close()
+	cmd.Stdout = f
 	if err := cmd.Start(); err != nil {
 		return nil, err
 	}
 	t := time.AfterFunc(120*time.Second, func() { cmd.Process.Kill() })
-	err := cmd.Wait()
+	err = cmd.Wait()
 	t.Stop()
-	return out.Bytes(), err
+	out, rerr := os.ReadFile(outPath)
+	if rerr != nil {
+		return nil, rerr
+	}
+	return out, err
 }
 
 // parse the output of a batch; ok=false when the marker structure is broken
